@@ -150,6 +150,12 @@ func StressProgram(r *Rng) (string, string) {
 			return `s := "` + rep(`\n`, n*8) + "\"\nprint(s)\n", "many-escapes"
 		},
 		func() (string, string) {
+			// chained ranges and mixed subscripts on a string, a slice and a call result
+			sub := Pick(r, []string{"[1:]", "[:9]", "[0:9]", "[1:][0]", "[0:]"})
+			head := Pick(r, []string{"s := \"" + rep("abcdefgh", 40) + "\"\nprint(s", "xs := []int{1, 2, 3}\nprint(xs", "func names() []string {\n\treturn []string{\"a\"}\n}\nprint(names()", "print(\"" + rep("abcdefgh", 40) + "\""})
+			return head + rep(sub, n) + ")\n", "range-chain"
+		},
+		func() (string, string) {
 			return "s := \"abc\"\nx := s" + rep("[0]", n) + "\n", "subscript-chain"
 		},
 		func() (string, string) {
